@@ -381,6 +381,7 @@ int main(int argc, char **argv)
                 }
                 const bool r = sat->new_clause({p}) && sat->propagate();
                 std::cout << "C assert " << ls(p) << " " << (r ? 1 : 0) << "\n";
+                std::cout << "C verdict " << (r ? 1 : 0) << "\n";
                 if (!r)
                     dead = true;
             }
@@ -422,13 +423,52 @@ int main(int argc, char **argv)
                 dead = true;
         }
         else if (cmd == "setlb" || cmd == "setub")
-        { // setlb v n/d,n/d : the public set_lb / set_ub (used by the executor) with the TRUE literal as reason; outside the model
+        { // setlb v n/d,n/d : the public set_lb / set_ub (what executor.cpp calls) with the TRUE literal as reason, at root level
             const var v = std::stoul(tk[1]);
             auto p = tk[2].find(',');
             const inf_rational val(p_rat(tk[2].substr(0, p)), p_rat(tk[2].substr(p + 1)));
-            std::cout << "E " << cmd << " " << v << " " << irs(val) << "\n";
-            const bool r = (cmd == "setlb" ? th->set_lb(v, val, TRUE_lit) : th->set_ub(v, val, TRUE_lit)) && sat->propagate();
-            std::cout << "R " << cmd << " " << (r ? 1 : 0) << "\nS " << dump(*th) << "\n";
+            if (!sat->root_level())
+            {
+                std::cout << "C skipped-not-root\n";
+                continue;
+            }
+            std::cout << "E " << cmd << " " << v << " " << irs(val) << " " << alpha(*sat, *th) << "\n";
+            g_lemmas.clear();
+            const bool r1 = cmd == "setlb" ? th->set_lb(v, val, TRUE_lit) : th->set_ub(v, val, TRUE_lit);
+            std::cout << "R prop " << (r1 ? 1 : 0) << " cnfl=" << cl_str(th->cnfl) << " lemmas=" << lemmas_str() << "\n";
+            std::cout << "S " << dump(*th) << "\n";
+            if (r1)
+                std::cout << "X" << stale(*sat, *th) << "\n";
+            g_lemmas.clear();
+            bool r = r1;
+            if (r1)
+                r = sat->propagate();
+            else
+                th->cnfl.clear();
+            std::cout << "C verdict " << (r ? 1 : 0) << "\n";
+            if (!r)
+                dead = true;
+        }
+        else if (cmd == "bvar")
+        { // a plain propositional variable (a decision variable of the caller); its positive literal gets the next request index
+            lits.push_back(lit(sat->new_var()));
+            std::cout << "C bvar " << ls(lits.back()) << "\n";
+        }
+        else if (cmd == "clause")
+        { // clause k s k s ... : sat_core::new_clause at root level, then propagate
+            if (!sat->root_level())
+            {
+                std::cout << "C skipped-not-root\n";
+                continue;
+            }
+            std::vector<lit> ps;
+            for (size_t i = 1; i + 1 < tk.size(); i += 2)
+            {
+                lit q = lits.at(std::stoul(tk[i]));
+                ps.push_back(tk[i + 1] == "0" ? !q : q);
+            }
+            const bool r = sat->new_clause(ps) && sat->propagate();
+            std::cout << "C clause " << cl_str(ps) << " " << (r ? 1 : 0) << "\n";
             if (!r)
                 dead = true;
         }
